@@ -164,6 +164,7 @@ class TLCResult:
         self.generated = 0
         self.distinct = 0
         self.depth = 0
+        self.last_state = 0        # highest state number of a printed error trace
         self.out = ""
         self.violation = None      # text of the violated invariant/property, if any
         self.error = None          # machinery-level error text
@@ -214,6 +215,9 @@ def run_tlc(spec_dir, module, cfg, workers=NCPU, env=None, timeout=1500, xmx="8g
             m = re.match(r"The depth of the complete state graph search is (\d+)", line)
             if m:
                 r.depth = int(m.group(1))
+            m = re.match(r"State (\d+): ", line)
+            if m:
+                r.last_state = max(r.last_state, int(m.group(1)))
     r.out = (first_error or "") + "".join(tail)
     shutil.rmtree(md, ignore_errors=True) if stdout_path and not stdout_path.startswith(md) else None
     if r.exit == 124:
@@ -445,13 +449,14 @@ def validate_trace(spec_dir, module, cfg, trace_path, workdir_, shards=NCPU, env
                 raise MachineryError("trace validation %s shard %d: %s" % (module, idx, r.error))
             if r.exit == 0:
                 break
-            # rejection: matched prefix = generated-1 events (initial state + one state per event)
-            matched = max(0, r.generated - 1)
+            # rejection.  The trace specification may branch (unlogged choices), so the position is taken from
+            # the depth of the search (levels = initial state + one per matched event), not from the state count.
             is_inv = r.violation and not re.search(r"ostcondition", r.violation)
             if is_inv:
-                # an invariant failed in the state reached after `matched` events (the last one matched)
-                bad = matched - 1
+                # an invariant failed in the last state of the printed error trace: State k+1 follows event k
+                bad = (r.last_state - 2) if r.last_state >= 2 else max(0, r.generated - 2)
             else:
+                matched = (r.depth - 1) if r.depth >= 1 else max(0, r.generated - 1)
                 bad = matched
             bad = max(0, min(bad, total - 1))
             # locate execution
@@ -738,6 +743,7 @@ def replay(path):
     if r.exit == 0:
         print("ACCEPTED: the specification %s explains all %d events of %s" % (m["module"], len(lines), path))
         return 0
-    print("REJECTED by %s after %d of %d events (%s); first unexplained event:" % (m["module"], max(0, r.generated - 1), len(lines), r.violation))
-    print(lines[min(len(lines) - 1, max(0, r.generated - 1))][:3000])
+    k = (r.depth - 1) if r.depth >= 1 else max(0, r.generated - 1)
+    print("REJECTED by %s after %d of %d events (%s); first unexplained event:" % (m["module"], k, len(lines), r.violation))
+    print(lines[min(len(lines) - 1, k)][:3000])
     return 1
